@@ -46,7 +46,7 @@ def gen_cases(tier, seed):
                               cost=1.0 if max_eps == 3 else 12.0))
     for i in range(40 if tier == "quick" else 3000):
         cases.append(dict(kind="rand", seed=int(rng.integers(1 << 30)), cost=0.5))
-    n_td7 = 3 if tier == "quick" else 48
+    n_td7 = 6 if tier == "quick" else 48
     for i in range(n_td7):
         cases.append(dict(kind="td7", seed=int(rng.integers(1 << 30)), idx=i,
                           cost=30.0))
